@@ -87,6 +87,7 @@ type State struct {
 	defers []deferred
 	trace  []string // human-readable branch decisions
 	panicking bool
+	private map[string]bool // objects allocated by this execution whose address has not escaped (unknown callees cannot touch them)
 }
 
 func newState() *State {
@@ -113,6 +114,12 @@ func (s *State) clone() *State {
 	n.defers = append([]deferred{}, s.defers...)
 	n.trace = append([]string{}, s.trace...)
 	n.panicking = s.panicking
+	if s.private != nil {
+		n.private = map[string]bool{}
+		for k := range s.private {
+			n.private[k] = true
+		}
+	}
 	return n
 }
 
@@ -308,6 +315,13 @@ func (e *Exec) scalarOf(v Val) Scalar {
 
 // ---------- heap families ----------
 
+type havocRec struct {
+	prevEpoch int
+	prevVer   map[string]string
+	private   []string
+	stable    map[string][]string // family -> refs whose value in that family is assumed stable
+}
+
 type famSig struct {
 	Args []string
 	Res  string
@@ -324,6 +338,15 @@ func (e *Exec) famDecl(fam string, args []string, res string) {
 
 func isGhostFam(fam string) bool { return strings.HasPrefix(fam, "$") }
 
+func (e *Exec) stableFam(fam string) bool {
+	for _, p := range e.stablePrefixes {
+		if fam == p || strings.HasPrefix(fam, p+".") {
+			return true
+		}
+	}
+	return false
+}
+
 // current SMT function symbol of a family in state s
 func (e *Exec) cur(s *State, fam string, args []string, res string) string {
 	e.famDecl(fam, args, res)
@@ -331,8 +354,8 @@ func (e *Exec) cur(s *State, fam string, args []string, res string) string {
 		return n
 	}
 	ep := s.epoch
-	if isGhostFam(fam) {
-		ep = 0
+	if isGhostFam(fam) || e.stableFam(fam) {
+		ep = 0 // ghost families and families of stable types are never havocked by unknown calls
 	}
 	name := fmt.Sprintf("|%s@e%d|", fam, ep)
 	if !e.declSet[fmt.Sprintf("(declare-fun %s (%s) %s)", name, strings.Join(args, " "), res)] {
@@ -345,6 +368,38 @@ func (e *Exec) cur(s *State, fam string, args []string, res string) string {
 			e.declOwned(name, fmt.Sprintf("(assert (= (%s null) 0))", name))
 		case fam == "$alloc":
 			e.declOwned(name, fmt.Sprintf("(assert (%s null))", name))
+		}
+		if rec, ok := e.havocRecs[ep]; ok && len(rec.stable[fam]) > 0 && len(args) == 1 {
+			old, ok := rec.prevVer[fam]
+			if !ok {
+				tmp := newState()
+				tmp.epoch = rec.prevEpoch
+				old = e.cur(tmp, fam, args, res)
+			}
+			for _, p := range rec.stable[fam] {
+				e.declOwned(name, fmt.Sprintf("(assert (= (%s %s) (%s %s)))", name, p, old, p))
+			}
+		}
+		if rec, ok := e.havocRecs[ep]; ok && len(rec.private) > 0 && len(args) > 0 && args[0] == "Ref" && !isGhostFam(fam) {
+			// objects private to this execution were out of the unknown callee's reach: their fields are unchanged
+			old, ok := rec.prevVer[fam]
+			if !ok {
+				tmp := newState()
+				tmp.epoch = rec.prevEpoch
+				old = e.cur(tmp, fam, args, res)
+			}
+			for _, p := range rec.private {
+				if len(args) == 1 {
+					e.declOwned(name, fmt.Sprintf("(assert (= (%s %s) (%s %s)))", name, p, old, p))
+				} else {
+					var bs, as []string
+					for i := 1; i < len(args); i++ {
+						bs = append(bs, fmt.Sprintf("(z%d %s)", i, args[i]))
+						as = append(as, fmt.Sprintf("z%d", i))
+					}
+					e.declOwned(name, fmt.Sprintf("(assert (forall (%s) (! (= (%s %s %s) (%s %s %s)) :pattern ((%s %s %s)))))", strings.Join(bs, " "), name, p, strings.Join(as, " "), old, p, strings.Join(as, " "), name, p, strings.Join(as, " ")))
+				}
+			}
 		}
 	}
 	if res == "Ref" {
@@ -422,13 +477,38 @@ func app(fn string, args ...string) string {
 // havoc every non-ghost family (unknown call); $alloc grows monotonically
 func (e *Exec) havocAll(s *State) {
 	before := e.cur(s, "$alloc", []string{"Ref"}, "Bool")
-	e.fresh++
-	s.epoch = e.fresh
-	for fam := range s.ver {
+	// remember, for the objects that are still private to this execution, what every family looked like before
+	rec := havocRec{prevEpoch: s.epoch, prevVer: map[string]string{}}
+	for p := range s.private {
+		rec.private = append(rec.private, p)
+	}
+	sort.Strings(rec.private)
+	rec.stable = e.stableLocs
+	for fam, v := range s.ver {
 		if !isGhostFam(fam) {
+			rec.prevVer[fam] = v
+		}
+	}
+	e.fresh++
+	prevEpoch := s.epoch
+	s.epoch = e.fresh
+	e.havocRecs[s.epoch] = rec
+	for fam := range s.ver {
+		if !isGhostFam(fam) && !e.stableFam(fam) {
 			delete(s.ver, fam)
 		}
 	}
+	// families of stable types keep their current version (pin the previous epoch's base symbol if never written)
+	for fam, sig := range e.fams {
+		if e.stableFam(fam) {
+			if _, ok := s.ver[fam]; !ok {
+				tmp := newState()
+				tmp.epoch = prevEpoch
+				s.ver[fam] = e.cur(tmp, fam, sig.Args, sig.Res)
+			}
+		}
+	}
+	e.pinEpoch = prevEpoch
 	for fam := range e.fams {
 		if !isGhostFam(fam) {
 			e.written[fam] = true
@@ -465,7 +545,50 @@ func (e *Exec) freshRef(s *State, hint string) string {
 	s.assume("(not (= %s null))", n)
 	s.assume("(not %s)", e.isAlloc(s, n))
 	e.hwrite(s, "$alloc", []string{"Ref"}, "Bool", []string{n}, "true")
+	if s.private == nil {
+		s.private = map[string]bool{}
+	}
+	s.private[n] = true
 	return n
+}
+
+// escape: the references occurring in v may from now on be reached by other code
+func (e *Exec) escape(s *State, v Val) {
+	if len(s.private) == 0 || v == nil {
+		return
+	}
+	var walk func(v Val)
+	walk = func(v Val) {
+		switch x := v.(type) {
+		case Scalar:
+			for p := range s.private {
+				if strings.Contains(x.T, p) {
+					delete(s.private, p)
+				}
+			}
+		case *Agg:
+			for _, f := range x.F {
+				walk(f)
+			}
+		case Tuple:
+			for _, f := range x.E {
+				walk(f)
+			}
+		case SliceV:
+			walk(Scalar{x.Arr})
+		case ArrPtr:
+			walk(Scalar{x.Arr})
+		case HeapAddr:
+			walk(Scalar{x.Ref})
+		case ElemAddr:
+			walk(Scalar{x.Arr})
+		case ClosureV:
+			for _, b := range x.Bindings {
+				walk(b)
+			}
+		}
+	}
+	walk(v)
 }
 
 // ---------- maps ----------
